@@ -201,6 +201,9 @@ func (r *run) hook(ev string, mid int, a []interface{}, gated bool) {
 		r.rec.Emit(trace.Event{"ev": "gclosed", "m": mid, "gen": a[1].(int)})
 	case "cg.offered":
 		r.rec.Emit(trace.Event{"ev": "offered", "m": mid, "gen": a[1].(int), "member": a[2].(string)})
+	case "cg.errsent", "cg.backoff", "cg.done":
+		// run loop: the error was handed to Next / the back-off timer fired; Close: cg.done was closed
+		r.rec.Emit(trace.Event{"ev": ev, "m": mid})
 	}
 }
 
